@@ -238,18 +238,25 @@ static std::string op_file(const std::vector<std::string>& w)
         std::string script = w.size() > 3 ? w[3] : "-";
         std::stringstream ss(script);
         std::string tok;
+        bool cursor_unknown = false;
         while (std::getline(ss, tok, ',')) {
             if (tok.empty() || tok == "-") {
                 continue;
             }
-            // the script stops at the first failing operation (the model's
-            // result type does not carry the parser state of a failed call)
+            // after a failing operation the cursor is not specified (the model's result type does not carry the
+            // parser state of a failed call): cursor-dependent operations are not made until a rewind or a lookup
+            // - which start over from the first block - has succeeded
             {
                 size_t sp = out.rfind(' ');
                 std::string last = out.substr(sp == std::string::npos ? 0 : sp + 1);
                 size_t c1 = last.find(':');
                 if (c1 != std::string::npos && c1 + 1 < last.size() && (last[c1 + 1] == 'e' || last[c1 + 1] == 'o')) {
-                    break;
+                    cursor_unknown = true;
+                } else if (last[0] == 'r' || last[0] == 'f') {
+                    cursor_unknown = false;
+                }
+                if (cursor_unknown && tok[0] != 'r' && tok[0] != 'f' && tok[0] != 'v') {
+                    continue;
                 }
             }
             switch (tok[0]) {
